@@ -90,7 +90,7 @@ def zll(xss):
 
 
 HEADER = """From Coq Require Import ZArith List. Import ListNotations. Open Scope Z_scope.
-From EFModel Require Import C03_Csr C04_Solve C04_Exec.
+From EFModel Require Import C03_Csr C04_Solve C04_Exec C04_Rank.
 """
 
 
@@ -100,6 +100,45 @@ def flat_bc(entries):
         dofs += d
         vals += v
     return dofs, vals
+
+
+def bezout(cs):
+    """integers r with sum(c*r) = gcd(cs)"""
+    def eg(a, b):
+        if b == 0:
+            return (abs(a), (1 if a >= 0 else -1), 0)
+        g, x, y = eg(b, a % b)
+        return (g, y, x - (a // b) * y)
+    g, r = 0, []
+    for c in cs:
+        g2, x, y = eg(g, c)
+        r = [v * x for v in r] + [y]
+        g = g2
+    return g, r
+
+
+def right_inverse(ud, lags):
+    """integer right inverse of the constraint rows (Dirichlet lines on the sorted distinct dofs `ud`, then the
+    multi-point rows) as sparse triples (dof, line, value); None if some row has no integer right inverse on dofs that
+    no other row touches"""
+    tr = [((d, k), 1) for k, d in enumerate(ud)]
+    used = set(ud)
+    for l, (ds, cs, _) in enumerate(lags):
+        priv = [(d, c) for d, c in zip(ds, cs) if d not in used and sum(1 for x in ds if x == d) == 1]
+        if len(priv) != len(ds):
+            return None
+        g, r = bezout([c for _, c in priv])
+        if g != 1:
+            return None
+        tr += [((d, len(ud) + l), v) for (d, _), v in zip(priv, r) if v != 0]
+        used |= set(ds)
+    return tr
+
+
+def emit_rank(tag, n, ud, lags, tr):
+    lg = "[" + ";".join("(%s,%s,%d)" % (zl(d), zl(c), v) for d, c, v in lags) + "]"
+    t = "[" + ";".join("((%d,%d),%d)" % (i, k, v) for (i, k), v in tr) + "]"
+    return "Eval vm_compute in (%d, 3, rank_check %d %s %s %s).\n" % (tag, n, zl(ud), lg, t)
 
 
 def emit_plumb(case, res):
@@ -114,6 +153,11 @@ def emit_plumb(case, res):
     if case["lagrange"]:
         lags = "[" + ";".join("(%s,%s,%d)" % (zl(d), zl(c), v) for d, c, v in case["lagrange"]) + "]"
         s += "Eval vm_compute in (%d, 2, check_r2 %s %s (%s, %s)).\n" % (cid, common_args, lags, zll(res["A_cap"]), zl(res["b_cap"]))
+        # rank condition of C04_bordered_mpc_exists/unique on this instance's constraint rows
+        ud = sorted(set(dD))
+        tr = right_inverse(ud, case["lagrange"])
+        if tr is not None:
+            s += emit_rank(cid, n, ud, case["lagrange"], tr)
     else:
         N = len(res["unknown"])
         xi = [case["answer"][i % len(case["answer"])] for i in range(N)]
@@ -173,7 +217,7 @@ def run(ctx):
         ctx.violation("static-lib-build", "coq/lib or coq/model does not build", {"log": log[-3000:]}, found_input=False)
         return
     files = ctx.copy_props("C04/C04_theorems.v")
-    for extra in ("C04_unique.v", "C04_dense.v"):
+    for extra in ("C04_unique.v", "C04_dense.v", "C04_saddle.v"):
         if os.path.exists(os.path.join(common.COQ, "props", "C04", extra)):
             files += ctx.copy_props("C04/" + extra)
     r = ctx.coq(files, timeout=600)
@@ -278,6 +322,14 @@ def plumbing(ctx):
         if 2 in v and not all(v[2]):
             parts = [nm for nm, okk in zip(("A", "b"), v[2]) if not okk]
             mism.setdefault("r2:" + case["mode"] + ":" + "+".join(parts), []).append(i)
+    rank_cases = [i for i in ids if 3 in verdict.get(i, {})]
+    rank_bad = [i for i in rank_cases if not all(verdict[i][3])]
+    split_obl(ctx, "corrA:rank-condition-right-inverse-checked", len(rank_bad), len(rank_cases), "cases %s" % rank_bad[:5])
+    ctx.cov["rank_condition_instances_plumbing"] = len(rank_cases)
+    ctx.cov["lagrange_cases_without_integer_right_inverse"] = sum(1 for i in ids if byid[i]["lagrange"]) - len(rank_cases)
+    if rank_bad:
+        ctx.violation("corrA:rank-check", "the integer right inverse built for the constraint rows of plumbing case %d does not pass rank_check (harness/model disagreement on the row layout)" % rank_bad[0],
+                      {"case": byid[rank_bad[0]]}, found_input=False)
     nmis = sum(len(v) for v in mism.values())
     split_obl(ctx, "corrA:captured-systems-equal-model", len({i for v in mism.values() for i in v}), len(ids), "; ".join("%s: %d cases" % (k, len(v)) for k, v in sorted(mism.items())))
     for k, lst in sorted(mism.items()):
@@ -429,6 +481,24 @@ def physics(ctx):
         ctx.violation("corrB:impl-crash", "multi-solve harness failed: " + (err.strip().splitlines()[-1][:300] if err.strip() else "?"), {"stderr": err[-3000:]}, found_input=False)
         return
     ctx.log("physics: %d generated problems, %d named scenarios, %d multi-solve histories (%d solves)" % (len(results), len(sres), len(mres), sum(len(c["stages"]) for c in mcases)))
+    # rank condition on the real connection rows (Beam add_connection_* / MPC scenarios): integer right inverse checked by vm_compute
+    body, nrows = HEADER, 0
+    for cid, res in sorted(sres.items()):
+        rows = res.get("rows")
+        if not rows:
+            continue
+        ud = sorted(set(rows["dirichlet"]))
+        tr = right_inverse(ud, rows["lagrange"])
+        if tr is not None:
+            body += emit_rank(cid, rows["n"], ud, rows["lagrange"], tr)
+            nrows += 1
+    if nrows:
+        rc, out = ctx.coq_eval("casesB_rank.v", body, timeout=600)
+        oks = [all(t == "true" for t in re.findall(r"true|false", m.group(3))) for m in _RES.finditer(out)] if rc == 0 else []
+        split_obl(ctx, "corrB:rank-condition-on-connection-rows", nrows - sum(oks), nrows, out[-500:] if rc else "")
+        if rc != 0 or not all(oks) or len(oks) != nrows:
+            ctx.violation("corrB:rank-check", "rank_check fails on the constraint rows of a Beam connection / MPC scenario", {"log": out[-2000:]}, found_input=False)
+    ctx.cov["rank_condition_instances_real_rows"] = nrows
     byid = {c["id"]: c for c in cases}
     fails = {}
     nchecks = 0
